@@ -47,6 +47,17 @@ pub fn wrap(layers: &[LayerF], leaf: Arc<dyn Kinematics>) -> Arc<dyn Kinematics>
 
 fn leaf_for(p: Parameters, limits: &Option<(Joints, Joints, f64)>) -> Arc<dyn Kinematics> {
         match limits {
+            // one constrained robot in eight comes out of the URDF route: URDFParameters { .. }.to_robot(weight, offsets)
+            Some((f, t, w)) if (f[1].to_bits() >> 5) & 7 == 3 => {
+                let u = rs_opw_kinematics::urdf::URDFParameters { a1: p.a1, a2: p.a2, b: p.b, c1: p.c1, c2: p.c2, c3: p.c3, c4: p.c4,
+                    sign_corrections: p.sign_corrections, from: *f, to: *t, dof: p.dof };
+                Arc::new(u.to_robot(*w, &p.offsets))
+            }
+            // one in eight has its limits written in degrees
+            Some((f, t, w)) if (f[1].to_bits() >> 5) & 7 == 5 => {
+                let c = Constraints::from_degrees(std::array::from_fn(|i| f[i].to_degrees()..=t[i].to_degrees()), *w);
+                Arc::new(OPWKinematics::new_with_constraints(p, c))
+            }
             Some((f, t, w)) => {
                 // every second constrained robot obtains its limits through update_range from unrelated ones
                 // (the unrelated ones are narrow or permissive, so that stale state of either kind would show)
@@ -181,6 +192,8 @@ pub fn stack_for(class: &str, r: &mut StdRng) -> Vec<LayerF> {
         "pgram>tool" => vec![random_pgram(r), LayerF::Tool(random_iso(r, 0.3))],
         "pgram>base+tool" => vec![random_pgram(r), LayerF::Tool(random_iso(r, 0.3)), LayerF::Base(random_iso(r, 0.5))],
         "axial-tool" => vec![LayerF::Tool(axial_iso(r))],
+        "axial-frame" => vec![LayerF::Frame(axial_iso(r))],
+        "base+axial-frame" => vec![LayerF::Frame(axial_iso(r)), LayerF::Base(random_iso(r, 0.5))],
         "base+axial-tool" => vec![LayerF::Tool(axial_iso(r)), LayerF::Base(random_iso(r, 0.5))],
         _ => vec![],
     }
@@ -229,7 +242,8 @@ fn truth_for(class: &str, p: &mut Parameters, r: &mut StdRng) -> [f64; 6] {
         let class = if attempts > 400 { if attempts == 401 && std::env::var("VERIF_LOUD").is_ok() { eprintln!("truth_for: no {} posture for {:?}", class, robots::params_json(p)); } "fallback" } else { class };
         match class {
             "j5-zero" => e[4] = 0.0,
-            "j5-tiny" => e[4] = 10f64.powf(r.gen_range(-12.5..-8.5)) * if r.gen_bool(0.5) { 1.0 } else { -1.0 },
+            // (half far below any resolution, half inside the 0.01 degree singularity band but well above the accuracy)
+            "j5-tiny" => e[4] = 10f64.powf(if r.gen_bool(0.5) { r.gen_range(-12.5..-8.5) } else { r.gen_range(-5.0..-3.8) }) * if r.gen_bool(0.5) { 1.0 } else { -1.0 },
             "j5-pi" => e[4] = PI,
             "stretched" => e[2] = -psi3(p),
             "on-j1-axis" | "near-j1-axis" => {
@@ -488,7 +502,7 @@ pub fn instance_p(sc: &Value, p: Parameters, shared: Option<&Shared>, r: &mut St
         return (Value::Object(ev), Shared { p, e, layers: robot.layers.clone(), want: own_want });
     };
     let centered = prev_class == "centered";
-    let caller_j6 = if entry == "inverse_5dof" { j6 } else if entry == "inverse" { 0.0 } else { prev[5] };
+    let caller_j6 = if entry == "inverse_5dof" { j6 } else if entry == "inverse" || centered { 0.0 } else { prev[5] };
     let j6_equal: Vec<bool> = if five && !nonfinite_j6 {
         ans.iter().map(|a| a[5].to_bits() == caller_j6.to_bits() || (a[5] == caller_j6) ||
             (centered && { let d = (a[5] - caller_j6).rem_euclid(2.0 * PI); d.min(2.0 * PI - d) < 1e-12 })).collect()
@@ -496,7 +510,8 @@ pub fn instance_p(sc: &Value, p: Parameters, shared: Option<&Shared>, r: &mut St
     let plain: Vec<Vec<i64>> = if entry.contains("continuing") {
         // (5-DOF: the plain counterpart of a continuation call is the 5-DOF solve with the same J6 = previous J6;
         //  a robot declared 5-DOF answers plain `inverse` with J6 = 0, which the limits may treat differently)
-        let pl = if five { call(robot.kin.as_ref(), "inverse_5dof", &pose, &prev, prev[5]) } else { call(robot.kin.as_ref(), "inverse", &pose, &prev, j6) };
+        // (the sentinel stands for "J6 = 0" on the 5-DOF paths: the literal value, not whatever the constant holds)
+        let pl = if five { call(robot.kin.as_ref(), "inverse_5dof", &pose, &prev, if centered { 0.0 } else { prev[5] }) } else { call(robot.kin.as_ref(), "inverse", &pose, &prev, j6) };
         pl.unwrap_or_default().iter().map(au6).collect()
     } else { vec![] };
     // "the same query without limits": the sentinel means "relative to the constraint centres", which the
@@ -558,17 +573,34 @@ pub fn instance_p(sc: &Value, p: Parameters, shared: Option<&Shared>, r: &mut St
     // the limits a wrapper stack reports are those of the robot it wraps
     let reported = guarded(|| match (robot.kin.constraints(), &robot.limits) {
         (None, None) => true,
-        (Some(c), Some((f, t, w))) => { let x = Constraints::new(*f, *t, *w); c.from == x.from && c.to == x.to && c.centers == x.centers && c.tolerances == x.tolerances && c.sorting_weight == x.sorting_weight }
+        (Some(c), Some((f, t, w))) => {
+            // (to 1e-9 rad: limits written in degrees come back an ulp away)
+            let x = Constraints::new(*f, *t, *w);
+            let same = |a: &Joints, b: &Joints| (0..6).all(|i| a[i] == b[i] || (a[i] - b[i]).abs() <= 1e-9);
+            same(&c.from, &x.from) && same(&c.to, &x.to) && same(&c.centers, &x.centers) && same(&c.tolerances, &x.tolerances) && c.sorting_weight == x.sorting_weight
+        }
         _ => false,
     }).unwrap_or(false);
     ev.insert("lim_reported".into(), json!(reported));
+    // the originating vector with the caller's J6, inside the limits and 1e-3 rad clear of the arc ends (own arithmetic)
+    let truth5_in = match &robot.limits {
+        None => true,
+        Some((f, t, _)) => (0..6).all(|j| {
+            let x = if j == 5 { caller_j6 } else { q[j] };
+            let two_pi = 2.0 * PI;
+            let len = if f[j] == t[j] { two_pi } else if f[j] < t[j] { (t[j] - f[j]).min(two_pi) } else { (t[j] - f[j]).rem_euclid(two_pi) };
+            let d = (x - f[j]).rem_euclid(two_pi);
+            x.is_finite() && (len >= two_pi || (d >= 1e-3 && d <= len - 1e-3))
+        }),
+    };
+    ev.insert("truth5_in_limits".into(), json!(truth5_in));
     (Value::Object(ev), Shared { p, e, layers: robot.layers.clone(), want: own_want })
 }
 
 const OFFS: [&str; 3] = ["zero", "quarter", "random"];
 const W16S: [i64; 6] = [0, 4, 8, 12, 16, 5];
 const STACKS: [&str; 11] = ["bare", "tool", "base", "base+tool", "frame", "tool>base", "pgram", "tool>pgram", "pgram>pgram", "pgram>tool", "pgram>base+tool"];
-const STACKS5: [&str; 4] = ["bare", "axial-tool", "base", "base+axial-tool"];
+const STACKS5: [&str; 6] = ["bare", "axial-tool", "base", "base+axial-tool", "axial-frame", "base+axial-frame"];
 
 fn rotate(sc: &Value, i: usize) -> Value {
     let mut s = sc.clone();
@@ -661,7 +693,7 @@ pub fn record_follow(output: &str) {
             let ans = call(robot.kin.as_ref(), "inverse_continuing", &want.to_na(), &prev, 0.0);
             let mut ev = json!({"ev": "follow", "k": k + 1, "entry": "inverse_continuing", "dof": 6, "geom": class, "stack": stack_class,
                 "pose_ok": true, "reach": "yes", "pgram": false, "j6_finite": true, "huge": false, "prev": au6(&prev), "prev_in_range": true, "j6_equal": [], "w16": 0, "centres": [0,0,0,0,0,0],
-                "lim": false, "from": [0,0,0,0,0,0], "to": [0,0,0,0,0,0], "plain": [], "free": [], "resolve": [], "twin_shift5": 0, "fwd_n": 0, "lim_reported": true, "reseated": false,
+                "lim": false, "from": [0,0,0,0,0,0], "to": [0,0,0,0,0,0], "plain": [], "free": [], "resolve": [], "twin_shift5": 0, "fwd_n": 0, "lim_reported": true, "reseated": false, "truth5_in_limits": true, "member": "single", "key": "",
                 "truth": {"known": true, "q": au6(q), "nonsingular": true, "wrist_ok": true, "realised_by_prev": false}});
             match ans {
                 None => { ev["outcome"] = json!("panic"); ev["answers"] = json!([]); out.put(ev); break; }
